@@ -13,6 +13,12 @@ package main
 // sends datagrams continuously until the download is complete, while every k-th client->server
 // datagram is DROPPED: packets carrying window updates are lost and the updates are retransmitted
 // from the retransmission queue in packets that also carry an application datagram.
+// Replay mode (Replay, every third case; audit problem 1): no stream. After the handshake every server->client
+// packet and every other client->server packet is dropped while the client sends small datagrams, one per
+// packet, so the server's received-packet history grows one ACK range per packet and forgets its oldest
+// ranges beyond MaxNumAckRanges; the first datagram-carrying packet of that phase is captured and REPLAYED
+// unmodified after Gap (70..100) further packets were delivered. The replayed packet must be recognised as a
+// duplicate: monitor simdgram/dup-replay-beyond-ack-ranges (an application datagram was delivered twice).
 // Monitors: simdgram/dup, simdgram/modified, simdgram/stream, simdgram/finishes, simdgram/hang.
 
 import (
@@ -23,10 +29,12 @@ import (
 	"io"
 	"os"
 	"sync"
+	"sync/atomic"
 	"time"
 
 	quic "github.com/refraction-networking/uquic"
 	u "github.com/refraction-networking/uquic/internal/verifutil"
+	"github.com/refraction-networking/uquic/testutils/simnet"
 )
 
 func init() { units["simdgram"] = runSimDgram }
@@ -43,10 +51,16 @@ type simDgramCase struct {
 	Client     string
 	Seed       uint64
 	Down       bool // download mode
+	Replay     bool // replay mode
+	Gap        int  // replay mode: delivered client packets between capture and replay
 	Window     int  // download mode: the client's stream and connection receive window
 }
 
 func (c simDgramCase) String() string {
+	if c.Replay {
+		return fmt.Sprintf("replay client=%s rtt=%dms dgrams=%dx%dB gap=%dus: after the handshake drop all s>c and every other c>s datagram, replay the first c>s datagram of that phase after %d further delivered ones seed=%d",
+			c.Client, c.RTTms, c.Dgrams, c.DgSize, c.GapUs, c.Gap, c.Seed)
+	}
 	if c.Down {
 		return fmt.Sprintf("download client=%s rtt=%dms stream=%d window=%d dgrams<=%dx%dB gap=%dus drop every %d-th c>s datagram from #%d seed=%d",
 			c.Client, c.RTTms, c.StreamSize, c.Window, c.Dgrams, c.DgSize, c.GapUs, c.Every, c.FromIdx, c.Seed)
@@ -65,7 +79,9 @@ func runOneSimDgram(c simDgramCase) (fails []monFail, info string) {
 	dupCount, recvCount := 0, 0
 	err := inBubble(func() {
 		var faults []fault
-		for i := c.FromIdx; i < c.FromIdx+4000; i += c.Every {
+		var phase atomic.Int32 // replay mode: 1 while the gaps are produced
+		var n0 atomic.Int64    // replay mode: index of the first c>s datagram of the phase
+		for i := c.FromIdx; i < c.FromIdx+4000 && !c.Replay; i += c.Every {
 			if c.Down {
 				faults = append(faults, fault{Dir: 0, Idx: i, Kind: fDrop})
 			} else {
@@ -77,6 +93,14 @@ func runOneSimDgram(c simDgramCase) (fails []monFail, info string) {
 			Faults:     faults,
 			ServerConf: &quic.Config{EnableDatagrams: true, MaxIdleTimeout: 20 * time.Second},
 			ClientConf: &quic.Config{EnableDatagrams: true, MaxIdleTimeout: 20 * time.Second},
+		}
+		if c.Replay {
+			o.RandDrop = func(dir, idx int) bool {
+				if phase.Load() != 1 {
+					return false
+				}
+				return dir == 1 || (int64(idx)-n0.Load())%2 == 1
+			}
 		}
 		if c.Down {
 			w := uint64(c.Window)
@@ -158,7 +182,33 @@ func runOneSimDgram(c simDgramCase) (fails []monFail, info string) {
 		<-srvReady
 		want := streamBytes(1, c.StreamSize)
 		downDone := make(chan struct{})
-		if c.Down {
+		replayed := false
+		if c.Replay {
+			want = nil
+			time.Sleep(time.Duration(6*c.RTTms+100) * time.Millisecond) // handshake confirmed, ACKs exchanged
+			var captured []byte
+			delivered := 0
+			e.Router.mu.Lock()
+			n0.Store(int64(e.Router.cnt[0]))
+			e.Router.inject = func(dir, idx int, p simnet.Packet) []simnet.Packet {
+				if dir != 0 || phase.Load() != 1 || (int64(idx)-n0.Load())%2 == 1 {
+					return nil
+				}
+				if captured == nil {
+					captured = append([]byte{}, p.Data...)
+					return nil
+				}
+				delivered++
+				if delivered == c.Gap {
+					replayed = true
+					return []simnet.Packet{{To: p.To, From: p.From, Data: append([]byte{}, captured...)}}
+				}
+				return nil
+			}
+			e.Router.mu.Unlock()
+			phase.Store(1)
+			go func() { srvDone <- sres{nil, nil} }()
+		} else if c.Down {
 			go func() {
 				defer close(downDone)
 				s, err := conn.AcceptUniStream(ctx)
@@ -207,6 +257,7 @@ func runOneSimDgram(c simDgramCase) (fails []monFail, info string) {
 		case <-ctx.Done():
 			fail("simdgram/finishes", "transfer did not finish within 120 s of virtual time (upload: nothing was dropped; download: only every k-th client packet)")
 		}
+		phase.Store(0)
 		time.Sleep(time.Duration(c.DelayMs+4*c.RTTms+500) * time.Millisecond) // let held-back packets and retransmissions arrive
 		mu.Lock()
 		rcvd := append([][]byte{}, got...)
@@ -228,8 +279,13 @@ func runOneSimDgram(c simDgramCase) (fails []monFail, info string) {
 				}
 			}
 		}
-		if dupCount > 0 {
+		if dupCount > 0 && c.Replay {
+			fail("simdgram/dup-replay-beyond-ack-ranges", fmt.Sprintf("application datagram %q was delivered twice: the 1-RTT packet carrying it was replayed unmodified after %d further packets, each behind a gap, had been received (more ACK ranges than MaxNumAckRanges): the received-packet history had forgotten it and the packet was processed again", first, c.Gap))
+		} else if dupCount > 0 {
 			fail("simdgram/dup", fmt.Sprintf("%d of %d application datagrams were delivered more than once (first: %q) although the network only delayed packets", dupCount, len(sent), first))
+		}
+		if c.Replay && !replayed {
+			fail("simdgram/replay-not-reached", "the scenario did not get to the replay")
 		}
 		conn.CloseWithError(0, "")
 		if srvConn != nil {
@@ -259,6 +315,16 @@ func genSimDgramCase(r *u.Rng) simDgramCase {
 	return c
 }
 
+func simDgramReplay(c simDgramCase, r *u.Rng) simDgramCase {
+	c.Replay = true
+	c.Gap = r.Range(70, 100)
+	c.Dgrams = 2*c.Gap + 30
+	c.DgSize = r.Range(5, 60)
+	c.GapUs = int(r.Pick(300, 600, 1000))
+	c.StreamSize = 0
+	return c
+}
+
 func simDgramDownload(c simDgramCase, r *u.Rng) simDgramCase {
 	c.Down = true
 	c.Window = int(r.Pick(4096, 8192, 16384, 32768))
@@ -276,6 +342,8 @@ func runSimDgram(w *bufio.Writer, seed uint64, n int, _ []string) {
 		c := genSimDgramCase(r)
 		if i%3 == 1 {
 			c = simDgramDownload(c, r.Fork())
+		} else if i%3 == 2 {
+			c = simDgramReplay(c, r.Fork())
 		}
 		done := make(chan struct{})
 		go func(c simDgramCase) {
